@@ -81,3 +81,34 @@ Proof. intros Hcs. induction k as [|k IH]; intros M Hl HA.
 Theorem rotation_preserves_residual n (c s : R) (x : list R) (M : list (list R)) : c * c + s * s = 1 ->
   rows_ok n M -> Nat.even (length M) = true -> rsqn (rmv (rot_rows c s M) x) = rsqn (rmv M x).
 Proof. intros Hcs HA He. apply Nat.even_spec in He. destruct He as [k Hk]. apply (rotation_preserves_residual_k n c s x Hcs k M Hk HA). Qed.
+
+(* the sum of the unknowns does not depend on their order: zero-sum candidates (pressures) and mean-one candidates (tensions) of the
+   relabelled system are the relabelled candidates of the original one *)
+Lemma rsum_as_sumR (v : list R) : rsum v = sumR v.
+Proof. unfold vsum, sumR. induction v as [|y v IH]; [reflexivity|]. cbn [fold_right]. rewrite IH. reflexivity. Qed.
+Theorem sum_invariant_under_relabelling (p : list nat) (x : list R) :
+  Permutation p (seq 0 (length x)) -> rsum (permute 0 p x) = rsum x.
+Proof.
+  intros Hp. rewrite !rsum_as_sumR. unfold permute.
+  rewrite (sumR_perm _ _ (Permutation_map (fun i => nth i x 0) Hp)), map_nth_seq. reflexivity.
+Qed.
+
+(* hence: if x minimises the residual of the original system among the candidates with a given sum (zero for pressures), the relabelled x
+   minimises the residual of the relabelled system among the candidates with that sum - every candidate y of the relabelled system is the
+   relabelling of a candidate of the original one when p is a permutation; stated for the candidates permute p x' *)
+Theorem constrained_minimiser_relabels n (p q : list nat) (A : list (list R)) (b x : list R) (s : R) :
+  rows_ok n A -> length x = n -> length b = length A -> Permutation p (seq 0 n) -> Permutation q (seq 0 (length A)) ->
+  rsum x = s ->
+  (forall x', length x' = n -> rsum x' = s -> rsqn (rsub (rmv A x) b) <= rsqn (rsub (rmv A x') b)) ->
+  let '(A', b') := relabel_system p q A b in
+  rsum (permute 0 p x) = s /\
+  forall x', length x' = n -> rsum (permute 0 p x') = s ->
+    rsqn (rsub (rmv A' (permute 0 p x)) b') <= rsqn (rsub (rmv A' (permute 0 p x')) b').
+Proof.
+  intros HA Hx Hb Hp Hq Hs Hmin.
+  pose proof (residual_of_relabelled_system n p q A b) as Hres. unfold relabel_system in *.
+  split.
+  - rewrite sum_invariant_under_relabelling by (rewrite Hx; exact Hp). exact Hs.
+  - intros x' Hx' Hs'. rewrite (Hres x HA Hx Hb Hp Hq), (Hres x' HA Hx' Hb Hp Hq).
+    apply Hmin; [exact Hx'|]. rewrite <- Hs'. symmetry. apply sum_invariant_under_relabelling. rewrite Hx'. exact Hp.
+Qed.
